@@ -238,6 +238,10 @@ theorem step_write (s : Store) (v : View) (h : Handle) (i : Ino) (f : Bytes) (d 
   have hpos : (if (h.om &&& omAppend != 0) = true then f.length else h.pos.toNat) =
       (if d.app = true then f.length else d.off.toNat) := by rw [h7, h3]
   rw [hpos]
+  by_cases hmax : (if d.app = true then f.length else d.off.toNat) + b.length > maxFileSize
+  · simp only [hmax, if_true]
+    exact ⟨trivial, hf, hr', fun _ _ => trivial⟩
+  simp only [hmax, if_false]
   refine ⟨trivial, fileData_set _ _ _ _ _ _, ?_, fun j hj => fsp_get_set_ne _ _ _ _ hj⟩
   simp [Handle.repr, h2, h5, h7, hwr]
   omega
@@ -263,6 +267,10 @@ theorem step_pwrite (s : Store) (v : View) (h : Handle) (i : Ino) (f : Bytes) (d
   · simp [hb, hf, hr']
   have hb' := fsp_name_isEmpty_false hb
   simp only [hb', Bool.false_eq_true, if_false, writeData_eq_refPwrite]
+  by_cases hmax : off.toNat + b.length > maxFileSize
+  · simp only [hmax, if_true]
+    exact ⟨trivial, hf, hr', fun _ _ => trivial⟩
+  simp only [hmax, if_false]
   exact ⟨trivial, fileData_set _ _ _ _ _ _, hr', fun j hj => fsp_get_set_ne _ _ _ _ hj⟩
 
 theorem step_ftruncate (s : Store) (v : View) (h : Handle) (i : Ino) (f : Bytes) (d : FDesc) (size : Int)
@@ -273,9 +281,10 @@ theorem step_ftruncate (s : Store) (v : View) (h : Handle) (i : Ino) (f : Bytes)
   have hne := fsp_name_isEmpty_false h2
   unfold StepOK
   simp only [IOp.toFOp, fileStep, refStep, hne, h1, hg, Bool.false_eq_true, if_false]
-  by_cases hoff : size < 0
-  · simp [hoff, hf, hr']
-  simp only [hoff, if_false]
+  by_cases hoff : (size < 0 || size > (maxFileSize : Int)) = true
+  · simp only [hoff, if_true]
+    exact ⟨trivial, hf, hr', fun _ _ => trivial⟩
+  simp only [hoff, Bool.false_eq_true, if_false]
   by_cases hwr : h.om &&& omWrite = 0
   · have : d.wr = false := by rw [h6]; simp [hwr]
     simp [hwr, this, hf, hr']
@@ -294,19 +303,22 @@ theorem step_lseek (s : Store) (v : View) (h : Handle) (i : Ino) (f : Bytes) (d 
   simp only [IOp.toFOp, fileStep, refStep, hne, h1, hg, Bool.false_eq_true, if_false]
   by_cases hw0 : whence = 0
   · subst hw0
-    by_cases ho : off < 0
+    by_cases ho : (off < 0 || off > 9223372036854775807) = true
     · simp [ho, hf, hr']
-    · simp [ho, hf, Handle.repr, h2, h5, h6, h7]; omega
+    · simp [ho, hf, Handle.repr, h2, h5, h6, h7]
+      simp at ho; omega
   by_cases hw1 : whence = 1
   · subst hw1
-    by_cases ho : h.pos + off < 0
+    by_cases ho : (h.pos + off < 0 || h.pos + off > 9223372036854775807) = true
     · simp [ho, hf, hr', ← h3]
-    · simp [ho, hf, Handle.repr, h2, h5, h6, h7, ← h3]; omega
+    · simp [ho, hf, Handle.repr, h2, h5, h6, h7, ← h3]
+      simp at ho; omega
   by_cases hw2 : whence = 2
   · subst hw2
-    by_cases ho : (f.length : Int) + off < 0
+    by_cases ho : ((f.length : Int) + off < 0 || (f.length : Int) + off > 9223372036854775807) = true
     · simp [ho, hf, hr']
-    · simp [ho, hf, Handle.repr, h2, h5, h6, h7]; omega
+    · simp [ho, hf, Handle.repr, h2, h5, h6, h7]
+      simp at ho; omega
   simp [hw0, hw1, hw2, hf, hr']
 
 
